@@ -9,6 +9,8 @@ import Driver.RangeCoder
 import Driver.Srm
 import Driver.Segments
 import Driver.Obu
+import Driver.CopyIn
+import Driver.Sse
 
 def main (args : List String) : IO UInt32 := do
   match args with
@@ -23,4 +25,6 @@ def main (args : List String) : IO UInt32 := do
   | ["srm"] => Driver.srmMain; return 0
   | ["seg"] => Driver.segMain; return 0
   | ["obu"] => Driver.obuMain; return 0
+  | ["copyin"] => Driver.copyInMain; return 0
+  | ["sse"] => Driver.sseMain; return 0
   | _ => IO.eprintln "usage: svtmodel <subcommand>  (input on stdin, one op per line)"; return 2
